@@ -11,7 +11,7 @@ def four {α : Type} (f : α → α → Bool) (a b : α) : String := String.ofLi
 
 def answer (line : String) : String :=
   match parseSexp line with
-  | some (.list [.atom "eq", .atom kind, a, b]) =>
+  | some (.list (.atom "eq" :: .atom kind :: a :: b :: _)) =>
     let r : Option String :=
       match kind with
       | "units" => do let x ← parseUnits a; let y ← parseUnits b; pure ("E" ++ four eqUnits x y ++ " F" ++ four eqUnits x y)
